@@ -83,7 +83,7 @@ SPEC = dict(
     props_files=["lean/Qx/Props/C14.lean"],
     drivers=["qxdriver_c14"],
     translators=["crc_table.py", "stun_consts.py"],
-    harnesses=[dict(name="stun", asan="lib", driver="qxdriver_c14", timeout=2400)],
+    harnesses=[dict(name="stun", asan="lib", driver="qxdriver_c14", timeout=5400)],
     extra=[python_crosscheck],
     exhaustive=False,
     rule="one line = one call of the real QXmppStunMessage::encode(key, fp) on a message built through the public setters/members "
